@@ -27,7 +27,7 @@ class Tags(State):
         Args:
             **kwargs: If kwargs contains `tags`, assign them to the attribute.
         """
-        self.tags = list(kwargs.pop('tags', []))  # own list: Error appends to it
+        self.tags = list(listify(kwargs.pop('tags', [])))  # own list: Error appends to it
         super(Tags, self).__init__(*args, **kwargs)
 
     def __getattr__(self, item):
@@ -50,7 +50,7 @@ class Error(Tags):
         tags = kwargs.get('tags', [])
         accepted = kwargs.pop('accepted', False)
         if accepted:
-            kwargs['tags'] = list(tags) + ['accepted']  # not the caller's list: other states may have been given it
+            kwargs['tags'] = list(listify(tags)) + ['accepted']  # not the caller's list: others may have been given it
         super(Error, self).__init__(*args, **kwargs)
 
     def enter(self, event_data):
